@@ -17,12 +17,12 @@ pub struct LockEvent {
     /// documented rank of the lock (3 configs, 4 blockchain, 5 mempool, 6 peers, 7 wallet, 0 other)
     pub rank: u8,
     pub write: bool,
-    /// (rank, write) of the locks held by this thread at the time of the request
-    pub held: Vec<(u8, bool)>,
+    /// (rank, write, file of the acquisition) of the locks held by this thread at the time of the request
+    pub held: Vec<(u8, bool, &'static str)>,
 }
 
 thread_local! {
-    static HELD: RefCell<Vec<(u64, u8, bool)>> = RefCell::new(Vec::new());
+    static HELD: RefCell<Vec<(u64, u8, bool, &'static str)>> = RefCell::new(Vec::new());
     static TRACE: RefCell<Option<Vec<LockEvent>>> = RefCell::new(None);
     static NEXT: RefCell<u64> = RefCell::new(1);
 }
@@ -54,7 +54,7 @@ fn rank_of(type_name: &str) -> u8 {
 fn request(loc: &'static Location<'static>, rank: u8, write: bool) {
     TRACE.with(|t| {
         if let Some(v) = t.borrow_mut().as_mut() {
-            let held = HELD.with(|h| h.borrow().iter().map(|x| (x.1, x.2)).collect());
+            let held = HELD.with(|h| h.borrow().iter().map(|x| (x.1, x.2, x.3)).collect());
             v.push(LockEvent {
                 file: loc.file(),
                 line: loc.line(),
@@ -66,13 +66,13 @@ fn request(loc: &'static Location<'static>, rank: u8, write: bool) {
     });
 }
 
-fn acquired(rank: u8, write: bool) -> u64 {
+fn acquired(loc: &'static Location<'static>, rank: u8, write: bool) -> u64 {
     let id = NEXT.with(|n| {
         let mut n = n.borrow_mut();
         *n += 1;
         *n
     });
-    HELD.with(|h| h.borrow_mut().push((id, rank, write)));
+    HELD.with(|h| h.borrow_mut().push((id, rank, write, loc.file())));
     id
 }
 
@@ -112,7 +112,7 @@ impl<T: ?Sized> RwLock<T> {
             request(loc, self.rank, false);
             let inner = self.inner.read().await;
             ReadGuard {
-                id: acquired(self.rank, false),
+                id: acquired(loc, self.rank, false),
                 inner,
             }
         }
@@ -125,24 +125,28 @@ impl<T: ?Sized> RwLock<T> {
             request(loc, self.rank, true);
             let inner = self.inner.write().await;
             WriteGuard {
-                id: acquired(self.rank, true),
+                id: acquired(loc, self.rank, true),
                 inner,
             }
         }
     }
 
+    #[track_caller]
     pub fn try_read(&self) -> Result<ReadGuard<'_, T>, tokio::sync::TryLockError> {
+        let loc = Location::caller();
         let inner = self.inner.try_read()?;
         Ok(ReadGuard {
-            id: acquired(self.rank, false),
+            id: acquired(loc, self.rank, false),
             inner,
         })
     }
 
+    #[track_caller]
     pub fn try_write(&self) -> Result<WriteGuard<'_, T>, tokio::sync::TryLockError> {
+        let loc = Location::caller();
         let inner = self.inner.try_write()?;
         Ok(WriteGuard {
-            id: acquired(self.rank, true),
+            id: acquired(loc, self.rank, true),
             inner,
         })
     }
